@@ -350,7 +350,7 @@ func (w SocialWrappedCallbacks) update(c context.Context, a vocab.ActivityStream
 			m[k] = v
 		}
 		// Delete top-level values where the raw object had nils.
-		for k, v := range rawObjectAt(w.rawActivity, idx) {
+		for k, v := range rawObjectAt(w.rawActivity, op.Name(), idx) {
 			if _, ok := m[k]; v == nil && ok {
 				delete(m, k)
 			}
@@ -391,9 +391,11 @@ func (w SocialWrappedCallbacks) update(c context.Context, a vocab.ActivityStream
 }
 
 // rawObjectAt returns the value at the given index of the 'object' property in
-// the raw JSON of an activity, if that value is a JSON object.
-func rawObjectAt(raw map[string]interface{}, idx int) map[string]interface{} {
-	switch v := raw["object"].(type) {
+// the raw JSON of an activity, if that value is a JSON object. The name is the
+// one the property is written under ('as:object' for an activity that gives
+// the vocabulary an alias).
+func rawObjectAt(raw map[string]interface{}, name string, idx int) map[string]interface{} {
+	switch v := raw[name].(type) {
 	case map[string]interface{}:
 		if idx == 0 {
 			return v
